@@ -15,6 +15,7 @@ CONTRACT_MODULES = [
     "contracts.tx",
     "contracts.purity",
     "contracts.mbxml_num",
+    "contracts.ipsc",
 ]
 
 TRUSTED_BASE = [
@@ -93,5 +94,12 @@ PROPS = {
         level_note="Floats are outside the engine (bounded: 3000 + 2000 native evaluations per run). Latitude / longitude are decoded with the XML view's formula, the 4 octets read as a signed integer (as of fix 13365f5). Signed symbolic integers are a sign-magnitude model (abs, unary minus, comparison with 0, equality).",
         explanation="contracts MBXML.uintvar / sintvar / write_infotime + bounded floatvar / latlong",
         bounded_parts=[dict(what="ufloatvar / sfloatvar round trip", bound="3000 seeded (integer boundary, fraction) pairs per run, p = 1..3", contract="MBXML.floatvar_bounded"), dict(what="latitude / longitude", bound="2000 seeded values per run incl. edges", contract="MBXML.latlong_bounded")],
+    ),
+    "C13": dict(
+        level_text="Proof per (slot type, timeslot, call type) shape over symbolic well-formed 72-octet frames (symbolic sequence number, colour code, 24-bit ids, all reserved octets, pad octet, and an inner burst assembled from symbolic PDU fields / vocoder bits): both decoders give colour = the 4-bit field, ids = the 24-bit fields, same sequence number, types, payload, burst class, payload bits, timeslot; as_ipsc_bytes() of either reproduces the 72 octets.",
+        level_note="The kaitai-generated IpSiteConnectProtocol parser is under an ASSUMED contract (KaitaiView: attributes = octets at the .ksy offsets, ids = raw >> 8, colour = raw & 15), validated natively against the real parser on 400 seeded frames per run (bounded, not proved). Well-formed = fixed header 5a5a, defined type values, the low octet of each U4LE id field zero, wake-up call types only with the wake-up slot type. Quick tier: half of the (slot, timeslot, call) combinations; thorough: all.",
+        explanation="contract HyteraIPSC.frame + bounded kaitai.assumed_contract",
+        assumptions=["assumed contract of the third-party kaitai parser IpSiteConnectProtocol (validated natively each run)"],
+        bounded_parts=[dict(what="assumed contract of the kaitai parser", bound="400 seeded frames per run", contract="kaitai.assumed_contract")],
     ),
 }
